@@ -48,6 +48,8 @@ fn init_scheduler() {
 
     // timer thread
     thread::spawn(move || {
+        #[cfg(may_verif)]
+        crate::verif::push_actor("timer".to_string());
         // timer function
         let timer_event_handler = |c: Arc<AtomicOption<CoroutineImpl>>| {
             // just re-push the co to the visit list
@@ -68,6 +70,8 @@ fn init_scheduler() {
     // io event loop thread
     for (id, core) in (0..workers).zip(core_ids.into_iter().cycle()) {
         thread::spawn(move || {
+            #[cfg(may_verif)]
+            crate::verif::push_actor(format!("w{id}"));
             if pin_cores {
                 core_affinity::set_for_current(core);
             }
